@@ -45,12 +45,18 @@ class Reduce(Contract):
                     for axis in ["none"] + ["name%d" % d for d in range(rank)] + ["pos%d" % d for d in range(rank)]:
                         yield {"name": "%s-%s-r%d-%s" % (func, "skipna" if skipna else "plain", rank, axis), "func": func, "skipna": skipna,
                                "rank": rank, "axis": axis}
+        # integer and boolean data (the statement quantifies over float / int / bool arrays): which NumPy function is applied to
+        # what does not depend on the data type
+        for func, dk in (("sum", "I"), ("mean", "I"), ("min", "I"), ("sum", "b"), ("all", "b"), ("any", "b")):
+            for rank in (1, 2):
+                for axis in ["none", "name0"] + (["pos1"] if rank == 2 else []):
+                    yield {"name": "%s-plain-r%d-%s-data_%s" % (func, rank, axis, dk), "func": func, "skipna": False, "rank": rank, "axis": axis, "dk": dk}
 
     def bound_lengths(self, case):
         return ["lab%d.n" % d for d in range(case["rank"])]
 
     def setup(self, S, case):
-        return _setup(S, case["rank"])
+        return _setup(S, case["rank"], data_kind=case.get("dk", "f"))
 
     def _axis(self, case):
         a = case["axis"]
